@@ -909,9 +909,15 @@ PROPS["C03"]["assumptions"] = PROPS["C03"]["assumptions"] + [
 ]
 
 PROPS["C04"]["not_covered"] = PROPS["C04"]["not_covered"] + [
-    "DataDomain::without_widening_hints at T = IntervalDomain (the generic hypothesis dd_hints_hyp is unconditional, IntervalDomain delivers it under inv only: no witness at the real instantiation; M1)",
-    "DataDomain::intersect with both targets and absolute parts at T = IntervalDomain (dd_isect_pre needs the widening delay of the intersection, which IntervalDomain::intersect does not export; M3)",
+    "DataDomain::intersect with both targets and absolute parts at T = IntervalDomain for values of 5..8 bytes: the merge_span side condition of the widening merge on the intersected / merged absolute part is a side condition, not discharged (closed for widths <= 32 bit)",
 ]
+PROPS["C04"]["level_note"] = PROPS["C04"]["level_note"] + (
+    " DataDomain::without_widening_hints at T = IntervalDomain: dd_hints_hyp::<IntervalDomain>() is proved unconditionally (IntervalDomain::without_widening_hints has "
+    "no precondition any more) and a client requires only the identifier hypothesis. DataDomain::intersect at T = IntervalDomain is closed for values of at most 4 "
+    "bytes in all cases, incl. targets and absolute parts on both sides (this needed the widening delays of IntervalDomain::intersect and ::merge exported); for "
+    "5..8-byte values in the mixed pointer / absolute case the machine-arithmetic side condition of the widening merge on the intermediate results stays a side "
+    "condition of the client.")
+PROPS["C04"]["assumptions"] = PROPS["C04"]["assumptions"] + ["8-byte values, mixed pointer / absolute intersect of DataDomain<IntervalDomain>: merge_span <= i64::MAX on the intermediate absolute parts"]
 
 # ---- satisfiability audit (SAT_AUDIT.md): every property -------------------------------------------------------------
 TWINS["interval_base"] = [t for t in TWINS["interval_base"] if t[0] not in ("Interval::is_top", "Interval::new_top")]
